@@ -370,7 +370,9 @@ def run_command(case):
                         unrepresentable = True
             elif kind == 'quat':
                 n = math.sqrt(sum(x * x for x in v))
-                if not (1e-6 < n < 1e6) or any(math.isnan(x) for x in v):
+                if n == 0 and not any(math.isnan(x) for x in v):
+                    unrepresentable = True      # the zero quaternion is no orientation at all
+                elif not (1e-6 < n < 1e6) or any(math.isnan(x) for x in v):
                     skip = True
     if skip:
         out.feat('excluded-ambiguous')
@@ -500,6 +502,7 @@ _fx = st.one_of(st.floats(-32.7, 32.7, allow_nan=False), st.floats(-40, 40, allo
 _fx_in = st.one_of(st.floats(-32.7, 32.7, allow_nan=False), st.integers(-32767, 32767).map(lambda k: k / 1000.0))
 _quat = st.lists(st.one_of(st.floats(-1, 1, allow_nan=False), st.sampled_from([0.0, 1.0, -1.0, 0.5, -0.5])), min_size=4, max_size=4) \
     .filter(lambda q: sum(v * v for v in q) > 1e-6)
+_quat = st.one_of(_quat, _quat, _quat, _quat, st.sampled_from([[0.0, 0.0, 0.0, 0.0], [0, 0, 0, 0], [-0.0, 0.0, -0.0, 0.0]]))
 _thrust = st.one_of(st.integers(0, 65535), st.sampled_from([0, 65535, 65536, -1, 100000, 10001, 60000]), st.integers(-70000, 140000),
                     st.sampled_from([-0.5, -0.999, 65535.5, 65535.001, 100.5, 0.25]))
 _bs = st.lists(st.one_of(st.integers(0, 15), st.integers(-2, 17)), max_size=6, unique=True)
